@@ -1,2 +1,43 @@
-(* C16 -- placeholder *)
-Theorem C16_placeholder : True. Proof. exact I. Qed.
+(* C16 -- persist() reconnects forever with bounded, growing, resettable back-off.  Statements only. *)
+From Coq Require Import List ZArith QArith Qminmax.
+From Model Require Import Persist.
+From Proofs Require Import PersistFacts.
+Import ListNotations.
+Open Scope Q_scope.
+
+(* for every sequence of connection outcomes, every sequence of random draws and every exit script: persist() calls
+   connect once per attempt, passes that attempt's events through unchanged and in order, then yields exactly one BackOff
+   whose delay is min_wait + u * min(max_wait - min_wait, 2^k), k being the number of consecutive attempts that did not
+   reach Ready (0 right after one that did), and goes on unless the exit event was set *)
+Theorem C16_structure : forall mn mx attempts draws exits no prev,
+  fst (persist mn mx attempts draws exits no prev) = spec_items mn mx attempts draws exits no prev.
+Proof. exact persist_structure. Qed.
+Print Assumptions C16_structure.
+
+(* it never ends by itself *)
+Theorem C16_stops_only_on_exit : forall mn mx attempts draws exits no prev,
+  snd (persist mn mx attempts draws exits no prev) = false -> In true exits.
+Proof. exact persist_stops_only_on_exit. Qed.
+Print Assumptions C16_stops_only_on_exit.
+
+Theorem C16_delay_bounds : forall mn mx u k, 0 <= mn -> mn <= mx -> 0 <= u -> u < 1 ->
+  mn <= backoff mn mx u k /\ backoff mn mx u k <= mx.
+Proof. exact backoff_bounds. Qed.
+Print Assumptions C16_delay_bounds.
+
+Theorem C16_limit : forall mn mx u k, 0 <= u -> u < 1 -> mn <= mx ->
+  backoff mn mx u k <= mn + Qmin (mx - mn) (pow2 k).
+Proof. exact backoff_limit. Qed.
+Print Assumptions C16_limit.
+
+Theorem C16_reset_and_growth : forall prev a,
+  (In true a -> retries_after prev a = O) /\ (~ In true a -> retries_after prev a = S prev) /\ pow2 (S prev) == 2 * pow2 prev.
+Proof. intros. split; [apply retries_reset|split; [apply retries_grow|apply pow2_double]]. Qed.
+Print Assumptions C16_reset_and_growth.
+
+Example C16_nonvacuous :
+  fst (persist 5 30 [[false; false]; [false; true; false]; [false]] [1#2; 1#4; 3#4] [false; false; true] 0 0)
+  = [PConnect 0; PEvent 0 0 false; PEvent 0 1 false; PBackOff (backoff 5 30 (1#2) 1);
+     PConnect 1; PEvent 1 0 false; PEvent 1 1 true; PEvent 1 2 false; PBackOff (backoff 5 30 (1#4) 0);
+     PConnect 2; PEvent 2 0 false; PBackOff (backoff 5 30 (3#4) 1)].
+Proof. reflexivity. Qed.
